@@ -440,10 +440,19 @@ def run(ctx):
         ctx.violation("Coq obligations of C11 do not check: %s" % (res.failed[:2],), {"theorem": [f[2] for f in res.failed], "errors": res.failed[:3]}, no_input=True)
 
     if os.environ.get("VERIF_VERBOSE"): ctx.log("violations reported; writing evidence")
-    fc_ran = False
+    fc_ran = False; fc_stats = None
     if C11fc is not None and hasattr(C11fc, "run_fc"):
-        C11fc.run_fc(ctx)
+        fc_stats = C11fc.run_fc(ctx)       # reports its own violations through ctx
         fc_ran = True
+        if os.environ.get("VERIF_VERBOSE"): ctx.log("FCPriorityQueue half (checks/C11fc.py) done")
+
+    # non-gating extra: the model's hand-written bit_reverse_counter equals the generated translation (Gen_brc, C26).
+    # Gen_brc.v is regenerated by every run of C26 (possibly from a scratch $VERIF_REPO), so a failure to build here is
+    # recorded, not reported: the counter's behaviour is covered by the step correspondence and the monitors above.
+    rc_t, out_t = vcheck.sh(["make", "-j%d" % vcheck.NCPU, "Proofs/MsPqBrcGen.vo"], cwd=vcheck.COQ, timeout=600)
+    tie = {"file": "coq/Proofs/MsPqBrcGen.v", "theorems": ["brc_inc_is_generated", "brc_dec_is_generated"], "built": rc_t == 0}
+    if rc_t != 0:
+        tie["error"] = out_t[-400:]
 
     ctx.coverage.update({
         "evaluations": len(cases), "distinct_nontrivial": len(stats["contended"]),
@@ -463,7 +472,8 @@ def run(ctx):
         "samples": [public_case(c) for c in cases[ncorpus:ncorpus + 2]],
         "modelled": "cds::intrusive::MSPriorityQueue push/pop/heapify_after_push/heapify_after_pop + bit_reverse_counter inc/dec; "
                     "cds::container::MSPriorityQueue runs the same atomic accesses (checked by the same correspondence)",
-        "fc_part_ran": fc_ran,
+        "fc_part_ran": fc_ran, "fc": fc_stats,
+        "counter_tied_to_generated_code(non-gating)": tie,
         "fc_part": "checks/C11fc.py run_fc(ctx)" if fc_ran else "checks/C11fc.py not present: the FCPriorityQueue half of C11 was NOT checked in this run",
     })
     return ctx.finish(vcheck.STD_TRUSTED + ["hook layer: khizmax_libcds_verif::atomic<T>, baton scheduler, event log (hooks/include)",
